@@ -22,6 +22,11 @@
 #define C06_OUTBIG ((size_t)1 << 20)
 #define C06_EXACT_MAX 4096   // pieces up to this size are copied into exactly sized heap blocks (ASan sees overruns)
 #define C06_HANG 99          // pseudo return code: no termination
+#define C06_RUNAWAY 98       // pseudo return code: output grew beyond the limit below (a coder that never stops producing)
+
+// Upper limit for the output of one run. A sweep lowers it to twice the reference run's output + 64 KiB: a sliced run that
+// produces more than that already differs from the reference, and need not be followed any further.
+static size_t c06_out_limit = (size_t)256 << 20;
 
 // When set, empty windows are passed as NULL pointers (lzma_code() allows NULL with avail == 0).
 static bool i06_null_in = false;
@@ -131,6 +136,12 @@ static void c06_slicing_next(c06_slicing *sl, size_t *in_len, size_t *out_cap)
 		case 5: *in_len = C06_ALL; *out_cap = 1; break;                             // all in, 1 byte out
 		case 6: *in_len = 1; *out_cap = (i % 4 == 3) ? 1 : 0; break;                // input pushed ahead of output
 		case 7: *in_len = (i % 4 == 3) ? 1 : 0; *out_cap = 1; break;                // output drained ahead of input
+		// all input offered, tiny output windows ("ran out of output space in the middle of a field" paths)
+		case 8: *in_len = C06_ALL; *out_cap = 2; break;
+		case 9: *in_len = C06_ALL; *out_cap = 3; break;
+		case 10: *in_len = C06_ALL; *out_cap = 5; break;
+		case 11: *in_len = C06_ALL; *out_cap = 7; break;
+		case 12: *in_len = C06_ALL; *out_cap = 1 + (i * 7 + 3) % 5; break;   // 1..5 bytes, varying
 		default: *in_len = 1; *out_cap = 1; break;
 		}
 		break;
@@ -268,6 +279,10 @@ static double c06_now(void)
 // final_finish: use LZMA_FINISH once the offered piece reaches the end of the input.
 // seekable: the coder is lzma_file_info_decoder; LZMA_SEEK_NEEDED repositions the input.
 // timed: the coder has worker threads and/or a timeout; "no progress" is judged by wall time.
+// When non-zero, the run is abandoned (the loop simply stops, ret = -2) after this many calls: used to leave a coder in the
+// middle of a stream before its handle is re-initialised for the next run.
+static uint64_t c06_abandon_after = 0;
+
 static void c06_run_sliced(lzma_stream *strm, const uint8_t *in, size_t in_len, c06_slicing *sl,
 		bool final_finish, bool seekable, bool timed, c06_result *r)
 {
@@ -374,9 +389,17 @@ static void c06_run_sliced(lzma_stream *strm, const uint8_t *in, size_t in_len, 
 			r->ret = (int)ret;
 			break;
 		}
+		if (c06_abandon_after != 0 && r->ncalls >= c06_abandon_after) {
+			r->ret = -2;
+			break;
+		}
 		// termination guard
 		if (idle > 0 && ((!timed && idle > 200) || (timed && c06_now() - idle_since > 30.0)) ) {
 			r->ret = C06_HANG;
+			break;
+		}
+		if (r->out_len > c06_out_limit) {
+			r->ret = C06_RUNAWAY;
 			break;
 		}
 		if (r->ncalls > (uint64_t)40 * 1000 * 1000) {
